@@ -44,7 +44,7 @@ def budget_s(tier):
     b = os.environ.get("PV_BUDGET_S")
     if b:
         return float(b)
-    return 170.0 if tier == "quick" else 3000.0
+    return 170.0 if tier == "quick" else 5400.0
 
 
 class LPCounter:
